@@ -58,7 +58,7 @@ def refusal_probe(cfg):
                 sim.resume(until=3)
             except BaseException as e:  # noqa
                 raised = type(e).__name__
-            out.append({"call": "resume-before-start", "raised": raised, "before": before, "after": view()})
+            out.append({"call": "resume-before-start", "raised": raised, "expect": "RuntimeError", "before": before, "after": view()})
             sim.start(runtime=2)
             before = view()
             raised = ""
@@ -66,17 +66,24 @@ def refusal_probe(cfg):
                 sim.start(runtime=4)
             except BaseException as e:  # noqa
                 raised = type(e).__name__
-            out.append({"call": "start-twice", "raised": raised, "before": before, "after": view()})
+            out.append({"call": "start-twice", "raised": raised, "expect": "RuntimeError", "before": before, "after": view()})
+            # ... the refused call must not get in the way of resuming
+            raised = ""
+            try:
+                while not sim.is_finished() and env.now < 500:
+                    sim.resume(until=env.now + 1)
+            except Exception as e:  # noqa
+                raised = type(e).__name__
+            fin = view()
+            out.append({"call": "resume-after-refused-start", "raised": raised, "expect": "", "before": fin, "after": fin})
             # ... and also once the simulation has run to completion
-            while not sim.is_finished() and env.now < 500:
-                sim.resume(until=env.now + 1)
             before = view()
             raised = ""
             try:
                 sim.start()
             except BaseException as e:  # noqa
                 raised = type(e).__name__
-            out.append({"call": "start-after-completion", "raised": raised, "before": before, "after": view()})
+            out.append({"call": "start-after-completion", "raised": raised, "expect": "RuntimeError", "before": before, "after": view()})
     finally:
         shutil.rmtree(wd, ignore_errors=True)
     return out
@@ -179,6 +186,13 @@ def hash_pairs(tier, seed, workers=16):
     nseeds = 4 if tier == "quick" else 8
     algs = ["batch", "queue", "plan", "batch", "queue", "greedy"]
     cfgs = [fan_cfg(rng, algs[i % len(algs)]) for i in range(ncfg)]
+    # the delay model may also be handed to the Simulation (which batch planning
+    # does not consult); the first simulation of the process does so
+    for ci, c in enumerate(cfgs):
+        if c["alg"] in ("batch", "queue") and (ci == 0 or (ci % 5 == 0 and "realDelay" not in c)):
+            c["realDelay"] = {"prob": 1.0, "dist": "normal", "degree": "HIGH", "seed": 20, "viaSim": True}
+            c.pop("extra", None)
+            cfgs[ci] = gen.normalise(c)
     hseeds = [0] + [rng.randint(1, 4_000_000) for _ in range(nseeds - 1)]
     wd = tempfile.mkdtemp(prefix="topsim_hash_")
     try:
@@ -218,6 +232,10 @@ def hash_pairs(tier, seed, workers=16):
             t1 = canon(runsim.run(cfgs[ci], budget=batch.serial_bound(cfgs[ci]) + 5))
             t2 = canon(runsim.run(cfgs[ci], budget=batch.serial_bound(cfgs[ci]) + 5))
             pairs.append({"a": t1, "b": t2, "refusals": [], "what": {"cfg": cfgs[ci], "hashseed": "same-process"}})
+            # ... and a fresh interpreter gives what this process gives after all
+            # the simulations it has already run
+            pairs.append({"a": base[ci], "b": t1, "refusals": [],
+                          "what": {"cfg": cfgs[ci], "hashseed": "fresh process vs. after earlier simulations"}})
         return pairs
     finally:
         shutil.rmtree(wd, ignore_errors=True)
